@@ -105,7 +105,9 @@ def fn_case(cid, rng, mode):
         modhead = b.lines[i0 + 1:i0 + 4]
         body = [f.source("    ") for f in b.fns]
         if rng.random() < 0.7:
-            body.insert(rng.randint(0, len(body)), "    #[cfg(any())] pub fn gone<D>(deps: &D, x: i32) -> i32 { this_does_not_exist(x) }")
+            pre = rng.choice(["", "", "/// docs first\n    ", "#[inline]\n    ", "#[allow(unused)] #[doc(hidden)]\n    "])
+            post = rng.choice(["", "", " #[inline]", " #[cfg(all())]"])
+            body.insert(rng.randint(0, len(body)), "    %s#[cfg(any())]%s pub fn gone<D>(deps: &D, x: i32) -> i32 { this_does_not_exist(x) }" % (pre, post))
             cfg_gone.append("gone")
         if rng.random() < 0.7 and not any(f.type_params or f.const_params for f in b.fns):
             body.insert(rng.randint(0, len(body)), "    #[cfg(all())] pub fn kept<D>(deps: &D, x: i32) -> i32 { ::vrt::enter(\"%s::kept\", ::vrt::tn(deps), ::vrt::addr(deps), &[&x as &dyn ::core::fmt::Debug]); x }" % cid)
@@ -152,7 +154,7 @@ def trait_case(cid, rng, inversion):
         L.append("impl TrImpl for Target {")
         for name, cfg, extra in ms:
             if cfg:
-                L.append("    " + cfg)
+                L.append("    " + rng.choice(["", "", "/// docs first\n    ", "#[allow(unused)]\n    "]) + cfg)
             body = '{ ::vrt::enter("%s::Target::%s", ::vrt::tn(deps), ::vrt::addr(deps), &[&a as &dyn ::core::fmt::Debug]); a + 1 }' % (cid, name)
             if cfg == "#[cfg(any())]":
                 body = "{ this_does_not_exist(a) }"
